@@ -123,3 +123,52 @@ def roundtrip_public_key(c, alg, hash_name, layout, flavour, n):
     c.check(seq_eq(out, pt), "public-key mode: unprotect(protect(x)) == x")
     c.check(holder["asked"] == (-1, -1, -1), "protect asks the DC for the current key")
     return True
+
+
+# positions of the cached envelope relative to a blob made at (361, 7, 12|13): same interval, later L2 in the same L1 interval, the L1 interval just above with
+# L2' below / equal / above the blob's L2 and L2' = 31, a far L1 interval, the last interval of the period
+ENV_POS = [(7, 13), (7, 20), (7, 31), (8, 0), (8, 12), (8, 13), (8, 14), (8, 31), (9, 3), (20, 31), (31, 30), (31, 31)]
+
+
+def _env_params(tier):
+    if tier == "quick":
+        return [dict(env_pos=p, hash_name=HASHES[i % 4], flavour=("sync", "async")[i % 2], layout=("envelope", "trailing")[(i // 2) % 2]) for i, p in enumerate(ENV_POS)]
+    return [dict(env_pos=p, hash_name=h, flavour=("sync", "async")[(i + j) % 2], layout=("envelope", "trailing")[(i // 2 + j) % 2]) for i, p in enumerate(ENV_POS)
+            for j, h in enumerate(HASHES)]
+
+
+@harness(P, per_job=True, params=_env_params, max_steps=3000000,
+         bounds="decryption by a process that never held the root key: its KeyCache holds one group key envelope a DC issued for a later position (12 listed positions relative to the "
+         "blob's: same interval, later L2, the next L1 interval with L2' below / at / above the blob's L2 and = 31, far L1 intervals, (31,31)), built by the harness playing the DC "
+         "(MS-GKDI 2.2.4 shape, independent chain on the ideal KDF). The blob is protected with the root key at a symbolic instant around an L2 boundary (positions (7,12) and (7,13)); "
+         "17 symbolic plaintext octets; 4 hashes; both layouts; sync and async", outside="other relative positions (C02 decides the derivation for every pair of positions)",
+         must_reach=("cached envelope: unprotect(protect(x)) == x",))
+def roundtrip_cached_envelope(c, env_pos, hash_name, flavour, layout):
+    from dpapi_ng import _gkdi
+
+    from .c17 import DC
+
+    lo, hi = e2e.window(361, 7, 13, 2, 2)
+    w = e2e.new_world(c, lo, hi)
+    pt = e2e.plaintext(c, 17)
+    root = c.bytes("root", 64)
+    sid = e2e.SIDS[1]
+    cache = e2e.loaded_cache(c, root, hash_name)
+    if flavour == "sync":
+        blob = c.call(dpapi_ng.ncrypt_protect_secret, pt, sid, root_key_identifier=e2e.RK, cache=cache)
+    else:
+        blob = c.call_async(dpapi_ng.async_ncrypt_protect_secret, pt, sid, root_key_identifier=e2e.RK, cache=cache)
+    if layout == "trailing":
+        blob = c.call(c.call(_blob.DPAPINGBlob.unpack, blob).pack, blob_in_envelope=False)
+    dc = DC(c, w, None, hash_name, root, (361,) + env_pos, "seed", 0, "x")
+    dc.domain = "domain.test"
+    sd = _blob.SIDDescriptor(sid).get_target_sd()
+    env = c.call(_gkdi.GroupKeyEnvelope.unpack, dc.envelope(sd, e2e.RK, 361, env_pos[0], env_pos[1]))
+    other = dpapi_ng.KeyCache()
+    c.call(other._store_key, sd, env)
+    if flavour == "sync":
+        out = c.call(dpapi_ng.ncrypt_unprotect_secret, blob, cache=other)
+    else:
+        out = c.call_async(dpapi_ng.async_ncrypt_unprotect_secret, blob, cache=other)
+    c.check(seq_eq(out, pt), "cached envelope: unprotect(protect(x)) == x")
+    return True
